@@ -847,6 +847,20 @@ def _implicit_kinds():
 
 C03_KINDS.update(_implicit_kinds())
 C03_KINDS.update({
+    # an if / case expression one of whose branches ends without a value has no value (2b939af): using it is a mismatch
+    "valueless-else":      (None, ['zv1 := 0', 'zv2 := if false do', '    1', 'else do', '    zv1 = 2', 'end', 'zv2 + 1']),
+    "valueless-then":      (None, ['zv1 := 0', 'zv2 := if true do', '    zv1 = 2', 'else do', '    1', 'end', 'zv2 + 1']),
+    "valueless-elif":      (None, ['zv2 := if true do', '    1', 'elif false do', '    zq :: 3', 'else do', '    2', 'end']),
+    "valueless-fn-ret":    (None, ['zvf :: fn c: bool -> int do', '    if c do', '        1', '    else do', '        zq :: 2', '    end', 'end']),
+    "valueless-case-arm":  (None, ['zv3 := case ZEV do', '    P x -> zq :: x end', '    Q -> 1 end', 'end']),
+    "valueless-case-else": (None, ['zv3 := case ZEV do', '    P x -> x end', '    else zq :: 1 end', 'end']),
+    "valueless-arg":       (None, ['zimp(if true do', '    1', 'else do', '    zq :: 2', 'end)']),
+    "ok:valueless-valued": (None, ['zv2 := if true do', '    1', 'else do', '    zq :: 2', '    3', 'end', 'zv2 + 1']),
+    "ok:valueless-unused": (None, ['if true do', '    1', 'else do', '    zq :: 2', 'end']),
+    "ok:valueless-ret-branch": (None, ['zvf :: fn c: bool -> int do', '    if c do', '        1', '    else do', '        ret 2', '    end', 'end']),
+    "ok:valueless-case-valued": (None, ['zv3 := case ZEV do', '    P x -> x end', '    else 1 end', 'end', 'zv3 + 1']),
+})
+C03_KINDS.update({
     # compound assignment on a type without that operator, also with the SAME variable on both sides
     "compound-self-bool-add": (None, ['zc1 := true', 'zc1 += zc1']),
     "compound-self-str-sub":  (None, ['zc2 := "s"', 'zc2 -= zc2']),
@@ -895,7 +909,7 @@ def c03_plants(tmpl, kinds=None):
                     continue
                 if d.get("pure") == "1" and (k in ("loop-cond", "assign-type", "void-store", "param-type", "var-type")
                                              or k.startswith("compound") or k.startswith("generic")
-                                             or "implicit" in k):
+                                             or "implicit" in k or "valueless" in k):
                     continue        # mutable definitions / impure calls are rejected in pure functions anyway
                 out.append((k, "S", i, info, st))
         if k == "ret-type":
